@@ -62,6 +62,8 @@ func runC11(p *Prog, r *Report) {
 	c11Probe(p, r)
 	c11HashOrder(p, r)
 	c11MemberHashOnly(p, r, impls)
+	c11EqualByInclusion(p, r)
+	r.Floor("R11.7-equal-by-inclusion", 4)
 	r.Floor("R11.6-member-hash-only", 10)
 	r.Floor("R11.1-typed-equality", 10)
 	r.Floor("R11.2-hash-subset", 10)
@@ -740,5 +742,87 @@ func c11MemberHashOnly(p *Prog, r *Report, impls []types.Type) {
 		sort.Strings(other)
 		r.Check(len(other) == 0, rule, fnQual(top), p.pos(top.Pos()), "nested members are seen only through hash/Equal",
 			fnQual(top)+" computes a hash and looks at a nested member through ["+strings.Join(other, "; ")+"]: only the member's own hash is known to agree for equal members, so equal values may now hash differently")
+	}
+}
+
+// R11.7 equality by inclusion: Set.Equal and Record.Equal decide by walking one side and looking each member up in the
+// other. That is an equivalence only if (a) the two sides were first shown to have the same number of members — inclusion
+// alone is one-directional, so a subset would equal its superset but not the other way round — and (b) every negative
+// answer inside the walk (key absent in the other side, member not contained, values not equal) ends the comparison with
+// `false` instead of moving on to the next member.
+func c11EqualByInclusion(p *Prog, r *Report) {
+	const rule = "R11.7-equal-by-inclusion"
+	for _, tn := range []string{"Set", "Record"} {
+		e := p.fn(pTypes, tn+".Equal")
+		if e == nil {
+			r.Anchor(rule, "types."+tn+".Equal")
+			continue
+		}
+		q := fnQual(e)
+		var loop *loopInfo
+		for _, l := range loopsOf(e) {
+			if loop == nil || len(l.Body) > len(loop.Body) {
+				loop = l
+			}
+		}
+		if loop == nil {
+			r.Undec(rule, q+":walk", p.pos(e.Pos()), "no loop over the members was found in "+q)
+			continue
+		}
+		// (a) same size before the walk
+		sized := false
+		for _, g := range guardsAt(loop.Header) {
+			fg := flattenGuard(g)
+			bo, ok := fg.Cond.(*ssa.BinOp)
+			if !ok {
+				continue
+			}
+			eq := bo.Op == token.EQL && fg.Pol || bo.Op == token.NEQ && !fg.Pol
+			lx, ok1 := bo.X.(*ssa.Call)
+			ly, ok2 := bo.Y.(*ssa.Call)
+			if eq && ok1 && ok2 && isBuiltin(&lx.Call, "len") && isBuiltin(&ly.Call, "len") && lx.Call.Args[0] != ly.Call.Args[0] &&
+				types.Identical(lx.Call.Args[0].Type(), ly.Call.Args[0].Type()) {
+				sized = true
+			}
+		}
+		r.Check(sized, rule, q+":same-size", p.pos(e.Pos()), "the member walk is entered only when both sides have the same number of members",
+			q+" walks one side's members without first establishing len(a) == len(b): inclusion is one-directional, so a proper subset compares equal to its superset (and not the other way round)")
+		// (b) negative answers end the comparison
+		nNeg := 0
+		var bad []string
+		for b := range loop.Body {
+			iff, ok := lastInstr(b).(*ssa.If)
+			if !ok || b == loop.Header {
+				continue
+			}
+			fg := flattenGuard(Guard{Cond: iff.Cond, Pol: true, If: iff})
+			kind := ""
+			switch x := fg.Cond.(type) {
+			case *ssa.Extract:
+				if lk, ok := x.Tuple.(*ssa.Lookup); ok && lk.CommaOk && x.Index == 1 {
+					kind = "key absent in the other side"
+				}
+			case *ssa.Call:
+				if x.Call.IsInvoke() && x.Call.Method.Name() == "Equal" {
+					kind = "values not equal"
+				} else if f := x.Call.StaticCallee(); f != nil && f.Name() == "Contains" {
+					kind = "member not contained in the other side"
+				}
+			}
+			if kind == "" {
+				continue
+			}
+			nNeg++
+			neg := b.Succs[1]
+			if !fg.Pol {
+				neg = b.Succs[0]
+			}
+			if loop.Body[neg] || !returnsConst(neg, false) {
+				bad = append(bad, kind+" at "+p.pos(iff.Cond.Pos()))
+			}
+		}
+		sort.Strings(bad)
+		r.Check(nNeg >= 1 && len(bad) == 0, rule, q+":negative-answers", p.pos(e.Pos()), itoa(nNeg)+" negative answer(s) inside the walk each return false",
+			q+": a negative answer inside the member walk does not end the comparison with false ("+strings.Join(bad, "; ")+boolStr(nNeg == 0, "no membership test found", "")+"): the walk moves on and two different values compare equal")
 	}
 }
